@@ -212,9 +212,11 @@ class _FakeOS:
         return getattr(_real_os, name)
 
 
-def _sim_make_fapl():
+def _sim_make_fapl(*args, **kwargs):
+    """The library's own make_fapl() builds the access property list (so any setting it adds is
+    kept); the simulator only swaps the virtual file driver underneath."""
     w = World.current
-    fapl = h5py.h5p.create(h5py.h5p.FILE_ACCESS)
+    fapl = _orig["make_fapl"](*args, **kwargs)
     disk = w.fs.disk(w._last_path, create=True)
     disk.seek(0)
     fapl.set_fileobj_driver(h5py.h5fd.fileobj_driver, disk)
@@ -266,13 +268,14 @@ class _H5fProxy:
         return getattr(h5py.h5f, name)
 
     @staticmethod
-    def create(path, flags=None, fapl=None, fcpl=None):
+    def create(path, *args, **kwargs):
         w = World.current
         disk = w.fs.disk(path, create=True)
+        flags = kwargs.get("flags", args[0] if args else None)
         if flags is None or flags & h5py.h5f.ACC_TRUNC:
             disk.seek(0)
             disk.truncate(0)
-        return h5py.h5f.create(path, flags=flags, fapl=fapl, fcpl=fcpl)
+        return h5py.h5f.create(path, *args, **kwargs)
 
 
 class _NixFileH5pyProxy:
